@@ -194,7 +194,7 @@ REGISTRY = {
         "rules": [
             registries.rule_compress_registry_1d, registries.rule_full_span, registries.rule_centre_shift, exponent.rule_sum_exponents, memo.rule_density_orientation,
             P(iso.rule_iso_claim, only_modules=("quimb.tensor.tensor_core",), rule="iso-claim[arithmetic]"),
-            registries.rule_fill_fn_siblings, registries.rule_length_delivered,
+            registries.rule_fill_fn_siblings, registries.rule_length_delivered, registries.rule_ctor_length_siblings,
             P(dmrg.rule_sweep_memory, sites=[("quimb.tensor.tn1d.compress", "tensor_network_1d_compress_fit", None, "prepare")], rule="sweep-memory[fit]"),
             P(optflow.rule_option_delivery, opts=("max_bond", "cutoff"), modules=("quimb.tensor.tn1d",), rule="cap-delivery[1d]", floor=40),
             P(registries.rule_mode_total, specs=[
